@@ -90,7 +90,7 @@ func genConfig(rng *simcore.RNG, env *simcore.Env) simcore.Op {
 	c["pchurn"] = []int{0, 5, 20}[rng.Intn(3)]      // percent of blocks with parameter txs
 	c["drops"] = rng.Bool(0.5)                      // large power swings
 	c["crash"] = rng.Bool(0.8)
-	c["sweep"] = rng.Bool(0.35)
+	c["sweep"] = rng.Bool(0.25)
 	c["prune"] = []int{0, 5, 12, 25}[rng.Intn(4)]
 	c["lab"] = []int{0, 10, 30}[rng.Intn(3)] // weight of the pure validator-set operations
 	c["lab_n"] = rng.Range(1, 6)
@@ -298,7 +298,7 @@ func (s *sim) Next(rng *simcore.RNG) simcore.Op {
 			w[3] = s.cfg.Int("prune") / 2
 		}
 	}
-	if s.cfg.Bool("sweep") && s.sweeps < 2 {
+	if s.cfg.Bool("sweep") && (s.sweeps < 1 || (s.env.Thorough() && s.sweeps < 3)) {
 		w[4] = 3
 		if size >= 3 && s.cfg.Int("prune") > 0 {
 			w[5] = 3
@@ -646,6 +646,34 @@ func present(vals *types.ValidatorSet, absent, nilv []int) (map[int]bool, map[in
 	return a, nl
 }
 
+// signCommit builds the commit of vals for id directly (no VoteSet): entry i is by member i;
+// absent members have an absent entry, nil voters a signed nil vote.
+func (s *sim) signCommit(vals *types.ValidatorSet, id types.BlockID, h int64, round int32, blockTime time.Time, delay time.Duration, absent, nilv map[int]bool) *types.Commit {
+	sigs := make([]types.CommitSig, len(vals.Validators))
+	for i, v := range vals.Validators {
+		if absent[i] {
+			sigs[i] = types.NewCommitSigAbsent()
+			continue
+		}
+		k, ok := s.kc.Keys[string(v.Address)]
+		if !ok {
+			panic(fmt.Sprintf("storesim: no key for validator %X", v.Address))
+		}
+		vote := &types.Vote{Type: tmproto.PrecommitType, Height: h, Round: round, BlockID: id,
+			Timestamp: blockTime.Add(delay + time.Duration(i)*time.Millisecond), ValidatorAddress: v.Address, ValidatorIndex: int32(i)}
+		if nilv[i] {
+			vote.BlockID = types.BlockID{}
+		}
+		sig, err := k.Sign(types.VoteSignBytes(s.chainID, vote.ToProto()))
+		if err != nil {
+			panic(err)
+		}
+		vote.Signature = sig
+		sigs[i] = vote.CommitSig()
+	}
+	return types.NewCommit(h, round, id, sigs)
+}
+
 func (s *sim) buildBlock(n *node, op simcore.Op) *blk {
 	st := n.state
 	h := s.tip + 1
@@ -657,7 +685,7 @@ func (s *sim) buildBlock(n *node, op simcore.Op) *blk {
 		// same round, not necessarily the same signers as the locally seen commit
 		prev := s.blocks[h-1]
 		ab, _ := present(st.LastValidators, op.Ints("labsent"), nil)
-		last = s.kc.SignCommit(s.chainID, st.LastValidators, prev.id, h-1, prev.seen.Round, prev.block.Time, chaingen.BlockSpec{Absent: ab, VoteDelay: 1500 * time.Millisecond})
+		last = s.signCommit(st.LastValidators, prev.id, h-1, prev.seen.Round, prev.block.Time, 1500*time.Millisecond, ab, nil)
 	}
 	round := int32(op.Int("round"))
 	if round < 0 || round > 1000 {
@@ -677,7 +705,7 @@ func (s *sim) buildBlock(n *node, op simcore.Op) *blk {
 	parts := block.MakePartSet(s.partSize)
 	id := types.BlockID{Hash: block.Hash(), PartSetHeader: parts.Header()}
 	ab, nl := present(st.Validators, op.Ints("absent"), op.Ints("nilv"))
-	seen := s.kc.SignCommit(s.chainID, st.Validators, id, h, round, block.Time, chaingen.BlockSpec{Absent: ab, Nil: nl})
+	seen := s.signCommit(st.Validators, id, h, round, block.Time, time.Second, ab, nl)
 	if parts.Total() > 1 {
 		s.env.Count("probe.multi_part_block")
 	}
@@ -830,7 +858,7 @@ func (s *sim) checkIncrement(pre, real *types.ValidatorSet, times int, ctx strin
 				s.env.Count("probe.rescale_skipped_priorities_differ")
 				return
 			}
-			sig = "proposer-differs-after-skipped-rescale"
+			sig = "proposer-path-dependent"
 		}
 	}
 	s.env.Fail("C08", sig, "%s: rotating %d time(s): %s | before %s | real %s", ctx, times, msg, setString(pre), setString(real))
@@ -994,6 +1022,7 @@ func (s *sim) boot(n *node, ctx string) {
 		e.Fail("C18", "state-load", "%s: %v", ctx, err)
 	}
 	n.connect(s, st)
+	replayed := false
 	func() {
 		defer func() {
 			if r := recover(); r != nil {
@@ -1010,6 +1039,7 @@ func (s *sim) boot(n *node, ctx string) {
 		}
 		if hs.NBlocks() > 0 {
 			e.Count("probe.handshake_replayed_block")
+			replayed = true
 		}
 	}()
 	st, err = n.ss.Load()
@@ -1038,7 +1068,8 @@ func (s *sim) boot(n *node, ctx string) {
 	default:
 		e.Fail("C18", "phantom-height", "%s: the store reports height %d, the chain has %d blocks", ctx, H, s.tip)
 	}
-	s.audit(n, ctx+", after the handshake", auditOpts{full: true, post: true})
+	// nothing was written since the first audit unless the handshake replayed a block
+	s.audit(n, ctx+", after the handshake", auditOpts{full: true, post: true, stateOnly: !replayed})
 }
 
 // restart replaces the live node by a new incarnation on the given images.
